@@ -230,7 +230,7 @@ def dumpStr (st : State) : String :=
     s!"{showNode k}>{showNode n.id}>{n.addr}#" ++ String.intercalate "+" ((sortNat (n.sess.map (·.toNat))).map hexN)))
   let rx := joinOr "," (sortStr (st.rx.map fun ((a, q), _) => s!"{a}-{q.toNat}"))
   let tx := joinOr "," (sortStr (st.tx.map fun ((a, q), t) => s!"{a}-{q.toNat}/{t.count}/a"))
-  s!"free={free} slots={st.lnode.sess.length} sess={sj} nodes={nodes} rx={rx} tx={tx} txseq={hexN st.txSeq.toNat}"
+  s!"free={free} slots={st.lnode.sess.length} sess={sj} nodes={nodes} rx={rx} tx={tx} txseq={hexN st.txSeq.toNat} rxu=_"
 
 /-! ### reference data plane, maintained from the observed calls (Spec.DataPlane) -/
 
